@@ -28,6 +28,7 @@ def handle (line : String) : String :=
       | "HSUM" => some (handleCross "HSUM")
       | "SSUM" => some (handleCross "SSUM")
       | "EXT" => some (handleCross "EXT")
+      | "EXTG" => some handleEXTG
       | "PGL" => some handlePGL
       | "PGC" => some handlePGC
       | "PGW" => some handlePGW
